@@ -145,6 +145,12 @@ def oracle(c, h=2.0 ** -12):
     tol = 1e-5 * (1 + abs(num)) + 4 * f2 * h
     # the difference quotient cannot resolve less than a few units in the last place of the cost itself
     tol += 8 * np.finfo(float).eps * max(abs(f1), abs(f0), 1.0) / h
+    # the truncation error of the quotient (third derivatives: large on narrow ranges, where a curve normalised to the range is
+    # steep) is measured by halving the step: an alarm needs a quotient that is resolved
+    e2 = np.zeros(L['n']); e2[k] = h / 2
+    g1, g0 = d.cost(s + e2, p), d.cost(s - e2, p)
+    num2 = (g1 - g0) / h
+    tol += 2 * abs(num - num2) + 8 * np.finfo(float).eps * max(abs(g1), abs(g0), 1.0) / (h / 2)
     if abs(num - g[k]) > tol:
       return 'slot %d: reported marginal cost %.9g but central difference of cost is %.9g (h=2^-12, tol %.2g)' % (k, g[k], num, tol)
   return None
